@@ -15,4 +15,4 @@ N_QUICK, N_THOROUGH = 120, 3000
 
 def run(ctx, replay=None):
     return pc.run_property(ctx, "C04", pc.mon_c04, GEN, N_QUICK, N_THOROUGH, replay=replay, rule=RULE,
-                           assumptions=[pc.PFCP_NOTE])
+                           assumptions=[pc.PFCP_NOTE], directed=pc.directed_c04)
